@@ -18,7 +18,7 @@ RULE = ('Hypothesis-drawn (script, spec, -j 1, strategy, mutator subset - half o
         'files and identical sequences of written contents (digests incl. comments). '
         'A difference is classified: a run in which a fresh variable was introduced '
         '=> bucket fresh-name; anything else => other/<what differs>.  Non-trivial: '
-        '>= 2 accepted steps; distinct = distinct case.  In addition, for typed scripts the '
+        '>= 2 accepted steps; distinct = distinct case.  One case in eight: the command prints its answer and then hangs on the original and on a quarter of the candidates (--timeout 0.25); in one repetition it prints only after the deadline.  In addition, for typed scripts the '
         'ordered list of all proposals of all mutators is computed in two fresh processes '
         'with different PYTHONHASHSEED (same file => same node ids) and must be identical; '
         'half of these inputs declare names colliding with this process\'s fresh names.')
@@ -58,6 +58,20 @@ def cases(draw):
         c['opts']['strategy'] = draw(st.sampled_from(['ddmin', 'hierarchical']))
         c['fresh_disabled'] = True
         c['slow_cc'] = True
+    c['hang_print'] = False
+    if not c['slow_cc'] and draw(st.integers(0, 7)) == 0:
+        # the command prints its answer and then hangs on the original and on a quarter of
+        # the candidates (golden run and these candidates time out alike); in one repetition
+        # it prints only after the deadline.  What a timed-out run printed must not matter.
+        th = vspec.token_hash(vspec.tokens_of_text(c['text']))
+        salt = draw(st.integers(0, 10**6))
+        c['spec']['fault'] = [salt, 4, {str(vspec.mix(th, salt) % 4): 'h'}]
+        c['opts']['timeout'] = 0.25
+        c['opts']['strategy'] = draw(st.sampled_from(['ddmin', 'hierarchical']))
+        c['opts']['extra_argv'] = ['--disable-all', '--erase-node', '--substitute-children']
+        c['opts'].pop('misc_argv', None)
+        c['fresh_disabled'] = True
+        c['hang_print'] = True
     c['hashseeds'] = ['0', str(draw(st.integers(1, 2**31))), str(draw(st.integers(1, 2**31)))]
     c['delays'] = [None, [draw(st.integers(0, 999)), [0, 1, 3]], [draw(st.integers(0, 999)), [2, 0, 0, 5]]]
     return c
@@ -74,10 +88,12 @@ def run_case(case, acc, wd):
             spcc['delay'] = [0, [1600]] if (case.get('slow_cc') and i == 1) else None
         r = e2e.run_ddsmt(f'{wd}-{i}', case['text'], sp, case['opts'], mode='launcher',
                           plan=dict(stop_on_repeat=True, max_accepts=300), hashseed=case['hashseeds'][i],
-                          wall_limit=300 if case.get('slow_cc') else 120, spec_cc=spcc)
+                          wall_limit=300 if case.get('slow_cc') else 120, spec_cc=spcc,
+                          extra_env=dict(ORACLE_LATE_MS='1500') if (case.get('hang_print') and i == 1) else None)
         runs.append(r)
         shutil.rmtree(f'{wd}-{i}', ignore_errors=True)
-    classes = [f'strategy-{case["opts"]["strategy"]}'] + (['slow-cross-check-in-one-repetition'] if case.get('slow_cc') else []) + [
+    classes = [f'strategy-{case["opts"]["strategy"]}'] + (['slow-cross-check-in-one-repetition'] if case.get('slow_cc') else []) + \
+        (['prints-then-hangs-late-in-one-repetition'] if case.get('hang_print') else []) + [
                'fresh-disabled' if case['fresh_disabled'] else 'fresh-enabled']
     if any(r.timed_out or r.after is None for r in runs):
         acc.skip('run-wall-limit-or-crash')
